@@ -1813,7 +1813,8 @@ func (vm *VM) run() (Addr, bool) {
 			}
 			rv := reflect.New(t).Elem()
 			vm.getIntoReflectValue(b, rv, op < 0)
-			if st != nil {
+			// A value of an interface type is shown as its dynamic value.
+			if st != nil && t.Kind() != reflect.Interface {
 				rv = st.Wrap(rv)
 			}
 			var v any
